@@ -245,7 +245,11 @@ func (vc *VC) heapGet(st *State, comp string, sort string) string {
 		panic(fmt.Sprintf("component %s used with sorts %s and %s", comp, old, sort))
 	}
 	vc.compSort[comp] = sort
-	n := vc.initialSymEpoch(comp, st.epoch)
+	ep := st.epoch
+	if strings.HasPrefix(comp, "ghost:") {
+		ep = 0 // ghost components are not affected by heap havoc (see havocAllHeap)
+	}
+	n := vc.initialSymEpoch(comp, ep)
 	vc.declare(n, sort)
 	st.heap[comp] = n
 	vc.heapSymWF(n, comp, sort, vc.epochAlloc[st.epoch])
